@@ -29,7 +29,7 @@ MANIFEST = dict(
     level_note=("Trusted: Lean kernel; three standard axioms; harness fakes; tunnel as FIFO of frames (C07). Expiry is "
                 "lazy (runs inside accept events): an overdue association that sees traffic before any sweep is "
                 "refreshed, not reopened. Id reuse within one server round / with frames in flight breaks the server "
-                "or misdelivers for small MAX_CHANNEL (known finding). IP_TRANSPARENT bind is the kernel's."),
+                "or misdelivers for small MAX_CHANNEL (known finding). Server sendto() errors are modelled as 'any errno: logged, the association and its socket stay' (srvGot's UDP_DATA branch records the outcome and changes nothing else); the corpus drives errnos inside and outside NET_ERRS followed by more traffic on the same association (next loop pass and same batch) and replies. IP_TRANSPARENT bind is the kernel's."),
     technique="Lean 4 proof (codec round trip, invariants by induction over step lists) + differential correspondence",
 )
 DRIVER_TARGETS = ['SshuttleModel.Code.DgramSys', 'SshuttleModel.Gen.C10', 'SshuttleModel.Gen.C11']
